@@ -321,7 +321,7 @@ def run(rep):
     jobs = []
     T1 = 4 if quick else 6
     for kind in ("stdp", "mstdp", "mstdpet", "triplet"):
-        for sign in ("hebbian", "dep"):
+        for sign in (tuple(SIGNS) if kind in ("mstdp", "mstdpet") else ("hebbian", "dep")):
             jobs.append((multicell_shard, (kind, sign, 3 if quick else 4)))
     T2 = 2 if quick else 3
     for kind in ("stdp", "mstdp", "mstdpet", "triplet"):
@@ -346,7 +346,8 @@ def run(rep):
                     jobs.append((history_shard, (kind, conn, nio, T2, 1.0, sign, "cumulative", ("delayed", 1), sp)))
                     jobs.append((history_shard, (kind, conn, nio, T2, 1.0, sign, "nearest", ("frozen", 1), sp)))
         for redname in ("default", "sum", "mean"):
-            for sign in ("hebbian", "dep"):
+            # the per-sample signal path routes every (sample, term) by lr sign x signal sign: all four sign modes there
+            for sign in (tuple(SIGNS) if (kind in ("mstdp", "mstdpet") and redname != "mean") else ("hebbian", "dep")):
                 jobs.append((reduction_shard, (kind, "dense", (1, 1), 1.0, sign, redname)))
     tally = run_shards(jobs, seed=rep.seed)
     rep.tally.merge(tally)
